@@ -59,8 +59,9 @@ def parse_report(text):
             if klass == 'stack-overflow':
                 # the innermost frames vary from run to run; the recursion cycle (functions seen repeatedly) does not
                 cyc = sorted(set(f for f in libf if libf.count(f) >= 3))
-                if cyc:
-                    key = '%s:%s:recursion:%s' % (tool, klass, '+'.join(cyc))
+                # (when the stack ran out inside a callback of the harness, the 256 frames ASan prints may all be the
+                # interpreter's: the cycle is then out of sight)
+                key = '%s:%s:recursion:%s' % (tool, klass, '+'.join(cyc) if cyc else 'unresolved')
             out.append((key, '\n'.join(lines[i:min(n, j + 1)])[:3000]))
             i = j
             continue
